@@ -24,6 +24,7 @@ class AttrFlow:
         self.cls = cls
         self._node_writes: Dict[str, Dict[Node, Set[str]]] = {}
         self._node_calls: Dict[str, Dict[Node, List[FuncInfo]]] = {}
+        self._node_refs: Dict[str, Dict[Node, List[FuncInfo]]] = {}
         self._sites: Dict[str, List[WriteSite]] = {}
         self._must: Dict[str, Set[str]] = {}
         self._may: Dict[str, Set[str]] = {}
@@ -39,6 +40,7 @@ class AttrFlow:
         selfn = self.m.self_name(f)
         writes: Dict[Node, Set[str]] = {}
         calls: Dict[Node, List[FuncInfo]] = {}
+        refs: Dict[Node, List[FuncInfo]] = {}
         sites: List[WriteSite] = []
 
         def targets(nd: Node, st: ast.AST, t: ast.AST, value, aug=False):
@@ -57,6 +59,7 @@ class AttrFlow:
                     writes.setdefault(nd, set()).add(base.attr)
                 sites.append(WriteSite(f, nd, st, base.attr, value, sub, aug))
 
+        called_locals = {x.func.id for x in ast.walk(f.node) if isinstance(x, ast.Call) and isinstance(x.func, ast.Name)}
         for nd in cfg.nodes:
             a = nd.ast
             if a is None:
@@ -95,8 +98,17 @@ class AttrFlow:
                             for g in self.m.resolve_call(f, n, concrete=self.cls):
                                 if g.cls is not None:
                                     calls.setdefault(nd, []).append(g)
+                    elif isinstance(n, ast.Attribute) and isinstance(n.ctx, ast.Load) and isinstance(n.value, ast.Name) \
+                            and n.value.id == selfn and nd.kind == STMT and isinstance(a, ast.Assign) and len(a.targets) == 1 \
+                            and isinstance(a.targets[0], ast.Name) and a.targets[0].id in called_locals:
+                        # a method value bound to a local that is called (solver = self._sparse if c else self._dense;
+                        # solver(A)): it may run
+                        for g in self.m.resolve_methods_all(self.cls, n.attr) or []:
+                            if g.cls is not None and not g.is_property():
+                                refs.setdefault(nd, []).append(g)
         self._node_writes[f.qual] = writes
         self._node_calls[f.qual] = calls
+        self._node_refs[f.qual] = refs
         self._sites[f.qual] = sites
 
     def sites(self, f: FuncInfo) -> List[WriteSite]:
@@ -111,7 +123,7 @@ class AttrFlow:
                 continue
             out.append(g)
             self._scan(g)
-            for lst in self._node_calls[g.qual].values():
+            for lst in list(self._node_calls[g.qual].values()) + list(self._node_refs[g.qual].values()):
                 for h in lst:
                     if h not in out:
                         work.append(h)
